@@ -118,6 +118,23 @@ def ensure_fi():
         lk.close()
 
 
+def bita_composition(out, layout, tier, mc_runs):
+    """Root composition Bita.tla (writer -> format -> reader -> clone) in the tier's bound; layout = "writer" (C01) or "any" (C17, with the
+    documented negative configuration: in a free layout descriptor order says nothing about adjacency)."""
+    cfg = "Bita_%s_%s.cfg" % (layout, tier)
+    res = tlc_mc("Bita", cfg, workers=6, timeout=3000)
+    mc_runs.append({"module": "Bita", "cfg": cfg, "distinct_states": res["stats"]["distinct"], "generated": res["stats"]["generated"], "wall_s": res["wall_s"],
+                    "violated": res["violated"], "actions_taken": {k: v for k, v in res["coverage"].items() if v > 0}})
+    mc_violation(out, res, "Bita", cfg)
+    if layout == "any":
+        neg = tlc_mc("Bita", "Bita_NEG_any_runs.cfg", workers=2, timeout=600, coverage=False)
+        if neg["ok"]:
+            raise ToolError("negative configuration Bita_NEG_any_runs was not rejected")
+        mc_runs.append({"module": "Bita", "cfg": "Bita_NEG_any_runs.cfg", "violated": neg["violated"], "expected_violation": True})
+    log("MC Bita/%s: %d distinct states %s" % (cfg, res["stats"]["distinct"], "ok" if res["ok"] else res["violated"]))
+    return res["stats"]["distinct"], res["stats"]["generated"]
+
+
 # ------------------------------------------------------------------ unbounded proofs (Apalache induction, TLAPS)
 def apalache_inductive(module, inv="IndInv", cinit="ConstInit", cinit_neg=None, safety=None, timeout=900):
     """Discharges `inv` as an inductive invariant of spec/<module>.tla with Apalache (base case at length 0, step at length 1),
